@@ -258,6 +258,28 @@ def replay_qty(model, state, ob):
     return {'failed': bool(failed), 'input': desc, 'observed': got, 'expected': want, 'script': script}
 
 
+def replay_build(model, state, ob):
+    """exponent vectors around the snapping threshold (1e-7) through the real FundamentalUnits._build"""
+    import numpy as np
+    from pgradd.Units.qty import FundamentalUnits
+    bad = []
+    for base in (-2, 0, 1, 3):
+        for d in (0.0, 5e-8, -5e-8, 2e-7, -2e-7, 0.25, -0.5):
+            e = base + d
+            exps = np.array([e, 0, 0, 0, 0, 0, 0], dtype=float)
+            try:
+                fu = FundamentalUnits._build(exps)
+                got = fu.exps[0] if hasattr(fu, 'exps') else None
+            except Exception as ex:    # noqa
+                got = 'raised ' + type(ex).__name__
+            want = float(round(e)) if abs(e - round(e)) <= 1e-7 else e
+            if isinstance(got, str) or got is None or abs(float(got) - want) > 1e-12:
+                bad.append((e, got, want))
+    return {'failed': bool(bad), 'input': [b[0] for b in bad] or 'exponents k, k +- 5e-8, k +- 2e-7, k + 0.25, k - 0.5 for k in (-2, 0, 1, 3)',
+            'observed': [str(b[1]) for b in bad], 'expected': [b[2] for b in bad] or 'snapped iff within 1e-7 of an integer',
+            'script': "import numpy as np\nfrom pgradd.Units.qty import FundamentalUnits\nprint(FundamentalUnits._build(np.array([1 - 5e-8, 0, 0, 0, 0, 0, 0.])).exps)   # expected first exponent 1\n"}
+
+
 UNITS = []
 for nm, op in (('eq', '=='), ('ne', '!='), ('lt', '<'), ('le', '<='), ('gt', '>'), ('ge', '>=')):
     UNITS.append(Unit('GenericQuantity.__%s__' % nm, (QTY, 'GenericQuantity.__%s__' % ('lt' if nm == 'gt' else nm)), cmp_unit(nm, op), replay_qty))
@@ -273,5 +295,5 @@ UNITS += [
     Unit('GenericQuantity.__truediv__', (QTY, 'GenericQuantity.__truediv__'), muldiv_unit('truediv')),
     Unit('GenericQuantity.__rtruediv__', (QTY, 'GenericQuantity.__rtruediv__'), muldiv_unit('truediv', True)),
     Unit('GenericQuantity.__pow__', (QTY, 'GenericQuantity.__pow__'), pow_unit),
-    Unit('FundamentalUnits._build', (QTY, 'FundamentalUnits._build'), build_unit),
+    Unit('FundamentalUnits._build', (QTY, 'FundamentalUnits._build'), build_unit, replay_build),
 ]
